@@ -70,7 +70,11 @@ def gen(rng, tier, index):
             sw.update(lam=float(10.0 ** rng.uniform(-1, 1.5)), reg="cos")
         return {"kind": "rewrite", "problem": spec, "cfg": cfg, "switch": sw}
     spec = draw_problem_spec(rng, list(FAMILIES), nmax=30)
-    cfg = draw_cfg(rng, jac_modes=["callable"], allow_scaler=True)
+    cfg = draw_cfg(rng, jac_modes=["callable"] * 8 + ["2-point", "3-point", None], allow_scaler=True)
+    if cfg["jac"] != "callable":
+        if spec["box"] == "degenerate":
+            spec["box"] = "boxed"
+        spec["n"] = min(spec["n"], 12)
     cfg["maxcor"] = int(rng.integers(1, 13))
     cfg["maxiter"] = int(rng.integers(1, 20))
     cfg["ftol"] = float(choice(rng, [0.0, 1e-12]))
@@ -119,7 +123,9 @@ def check_operator(hi, n, stats, add, where):
     if not np.all(np.isfinite(h64)) or big > 1e12 * max(1.0, float(np.max(np.abs(h64)))):
         stats["nj.ill_conditioned"] += 1
         return
-    tol = 1e-8 * big
+    # "exactly the diagonal": a few hundred ulps of the largest magnitude met while building the dense
+    # matrix (SciPy's own matvec and todense already differ in the last bits)
+    tol = 1e-12 * big
     err = float(np.max(np.abs(d - np.diag(h64))))
     if not err <= tol:
         add("diag_differs_from_dense_operator", {"where": where, "max_abs_err": err, "tolerance": tol, "pairs": int(sk.shape[0]), "n": n})
@@ -183,6 +189,12 @@ def execute_history(plan, stats, keys, viol):
         sy = np.sum(sk * yk, axis=1)
         if not (sy > 0).all():
             add("pair_without_positive_curvature", dict(w, min_sy=float(np.min(sy))))
+        if cfg["jac"] != "callable":
+            # finite-difference mode: the gradients are not user values; count, curvature and the
+            # diagonal utility are judged, provenance is not
+            check_operator(obj.hess_inv, n, stats, add, where)
+            keys.add("fd|%s|%s|%d|%d" % (spec["family"], cfg["jac"], maxcor, m))
+            return
         uni = universe_of(act)
         stop = 0 if ck_snap[0] is not None else None
         chain, matched = find_chain(uni, sk, yk, stop_at=stop)
